@@ -85,7 +85,10 @@ def setManager (q : GenericSampler) (slots : Slots) : GenericSampler := { q with
 def setCutoff (q : GenericSampler) (c : Nat) : GenericSampler :=
   { q with cutoff := c, slots := growSlots q.slots c }
 
-/-- `set_do_heatbath` (the conversion itself leaves the option off, whatever the Ising sampler had) -/
+/-- `set_do_heatbath` (the conversion itself leaves the option off, whatever the Ising sampler had).
+`diagonal_update` chooses the sweep by this FLAG; the weight table it caches on first use
+(`bond_weights`, dropped by `add_interaction`) is a function of `bonds` only and survives
+`set_do_heatbath(false)` without any effect on the sweeps that follow. -/
 def setDoHeatbath (q : GenericSampler) (b : Bool) : GenericSampler := { q with doHeatbath := b }
 
 /-- `should_do_cluster_update` -/
@@ -99,10 +102,22 @@ def ham (q : GenericSampler) : Ham := genericHam q.bonds
 end GenericSampler
 
 namespace IsingSampler
+/-- `set_enable_heatbath(b)`: `true` (re)builds the table from the sampler's OWN edges / Γ / h, `false`
+drops it; the sweep is heat-bath iff the table is present. -/
+def setEnableHeatbath (g : IsingSampler) (b : Bool) : IsingSampler := { g with heatbath := b }
 /-- `get_energy_for_average_n` (`get_offset()` = `total_energy_offset`) -/
 def energy (g : IsingSampler) (avgN beta : Rat) : Rat := -(avgN / beta) + g.model.offset
 def ham (g : IsingSampler) : Ham := isingHam g.model
 end IsingSampler
+
+/-- `QmcIsingGraph::swap_manager_and_state`: exchanges ONLY the operator container and the spin state,
+then both samplers call `set_cutoff(max)`.  Edges, fields, energy offset and the update options — the RVB
+flag and the heat-bath table, which is a function of the sampler's own `|J|` / Γ / h — stay with the
+sampler object. -/
+def swapIsing (a b : IsingSampler) : IsingSampler × IsingSampler :=
+  let m := max a.cutoff b.cutoff
+  ({ a with state := b.state, slots := growSlots b.slots m, cutoff := m },
+   { b with state := a.state, slots := growSlots a.slots m, cutoff := m })
 
 /-- the three matrices `into_qmc` builds -/
 def edgeMat (j : Rat) : List Rat := [-j, j, j, -j]
